@@ -56,7 +56,7 @@ class CallMixin(ExprMixin):
     # ------------------------------------------------------------------ call expression
     def eval_call(self, e: ast.Call, st: State, ctx: Ctx):
         # spec builtins needing unevaluated arguments
-        if isinstance(e.func, ast.Name) and ctx.spec and e.func.id in ("old", "pre", "forall", "exists", "implies", "bound", "arg"):
+        if isinstance(e.func, ast.Name) and ctx.spec and e.func.id in ("old", "pre", "forall", "exists", "implies", "bound", "arg", "defaulted"):
             return [(st, self.spec_special(e, st, ctx))]
         if isinstance(e.func, ast.Name) and e.func.id == "super" and not e.args:
             self_v = self.lookup_name(self.first_param_name(ctx.func), st, ctx)
@@ -224,6 +224,7 @@ class CallMixin(ExprMixin):
                 d[p.arg] = kwargs.pop(p.arg)
             elif defaults[i] is not None:
                 d[p.arg] = self.eval_default(defaults[i], st, dctx)
+                d["$defaulted"] = tuple(d.get("$defaulted", ())) + (p.arg,)
             else:
                 raise EngineError(f"missing argument {p.arg} calling {fi.key()}")
         if len(args) > len(pos):
